@@ -26,6 +26,11 @@ CHECKS = {
    "DESIGN.md 6 C08",
    "Trusted: VC generator, go/types, solvers; the semantics of the twelve reflect operations used; YAML/koanf decoding yields trees with distinct top-level maps (ghost depth labelling is a precondition).",
    "contract-based deductive verification with statically resolved reflection: VC generation over the real bodies of mergeConfigs/mergeStringMaps/Initialize against per-field contract schemas generated from go/types, z3/cvc5"),
+ "C19": ("proof",
+   "migrateConfig is proved in one symbolic VC for all 2^45 set/unset combinations of the v2 keys: every v2 setting with a v3 counterpart (all, _anchors, config, dir, exclude, exclude-regex, include-regex, log-level, mockname, outpkg, recursive, boilerplate-file, mock-build-tags, unroll-variadic, with-expecter) appears with the same value under its v3 name or template-data key; the template-data map gains no other key; every other v3 parameter is unchanged (field list complement from go/types); the v2 struct is untouched; no nil dereference. run's call-site obligations: input opened O_RDONLY, output opened once with O_CREATE|O_RDWR|O_TRUNC on the requested path, the encoded value has exactly the v2 package names, the top-level settings are the migrated ones and the only invented value is template=testify. checkDeprecatedTemplateVariables is verified with its reflection resolved statically over V2Config's fields. Partial: YAML decode/encode and loader acceptance are assumed; interface-level key preservation is covered through migrateConfig's per-level contract only.",
+   "DESIGN.md 6 C19",
+   "Trusted: VC generator, go/types, solvers; yaml.v3; pathlib.OpenFile = POSIX open; reflect operations on static descriptors.",
+   "contract-based deductive verification: field-wise postcondition and frame (sameExcept over go/types field list) on the real migrateConfig, call-site obligations and map-range loop invariants on run, z3/cvc5"),
 }
 
 NOT_APPLICABLE = {
